@@ -1,7 +1,9 @@
 SPECIFICATION Spec
 CONSTANTS
-  MaxDepth = 3
+  MaxDepth = 2
   MaxTens = 5
+  Judge = TRUE
+  Record = FALSE
   Dev = "none"
 VIEW view
 INVARIANT PlainPureInv
